@@ -26,6 +26,11 @@ def run(res):
     Ka = dict(G=('m', 's', 'b'), Script={'m': (('y', 0), ('kill!', 2), ('start', 2), ('y', 0)), 's': (('y', 3), ('y', 0)), 'b': (('y', 0), ('y', 2), ('y', 0))},
               Dts={1, 2}, MaxTimer=8, **dict(BASE, WithKill=False))
     cc.check_and_replay(res, 'c09_restart_in_frame', Ka, depth_all=0, walks=10000 if th else 1000)
+    # a coroutine that is killed during its own step (by itself, or by what it calls) and then leaves that step with an
+    # exception (Quit / SwitchWorld are raised from bodies by design): no mark may stay behind, it can be started again
+    Kx = dict(G=('g1', 'g2'), Script={'g1': (('y', 0), ('kill!', 1), ('raise', 0)), 'g2': (('y', 0), ('kill', 1), ('y', 1))},
+              Dts={1}, MaxTimer=4, **BASE)
+    cc.check_and_replay(res, 'c09_selfkill_raise', Kx, depth_all=0, walks=5000 if th else 800)
     cc.trace_validate(res, 'c09_recorded', 6, 1000 if th else 100, 60)
     cc.repo_tests_validate(res)
     if th:
